@@ -135,6 +135,17 @@ macro_rules! family_fn {
                     if from(xa.clone()) != *mb {
                         return Err(("malformed-value-differs".into(), format!("version {} on {}", v, vcommon::hex_short(bad))));
                     }
+                    // whatever produced the bytes: a value the version's own codec accepts (flag bits the version does not
+                    // name, boundary numbers) is a value of that version, and the views must be lossless for it too
+                    // OBSERVED, NOT JUDGED: the property quantifies over canonical encodings (DESIGN 1.10: no undeclared
+                    // flag bits). On the unchanged tree the views drop the undeclared bits of SecurityFlag (0x80 of a
+                    // version 5 logon proof comes back as 0); the counters make a change of that behaviour visible.
+                    *stats.entry("accepted_noncanonical_inputs".into()).or_insert(0) += 1;
+                    if let Ok(low) = catch(|| to(mb)) {
+                        if low != *xa {
+                            *stats.entry("accepted_noncanonical_inputs_changed_by_lift_and_lower__not_judged".into()).or_insert(0) += 1;
+                        }
+                    }
                 }
             }
             Ok(())
@@ -361,7 +372,7 @@ pub fn run(tier: Tier, replay: Option<String>) -> i32 {
             }
         };
     }
-    c.rule = "for each of the 15 message families and each protocol version 2,3,5,6,7,8 that the wowm sources define the message for: canonical encodings of that version's message (directed enumeration + proptest tapes) and corruptions of them; oracle: to_version_v(from_version_v(x)) == x for the value x of the version's own codec, expect_*_message_protocol gives the lifted value, write_protocol gives the bytes of the version's own write, tokio/async-std protocol readers and writers agree under whole and byte-by-byte delivery, malformed input fails identically on both paths. Non-trivial = encoding with a non-default decision or non-zero byte; distinct = (family, version, control shape).".into();
+    c.rule = "for each of the 15 message families and each protocol version 2,3,5,6,7,8 that the wowm sources define the message for: canonical encodings of that version's message (directed enumeration + proptest tapes) and corruptions of them; oracle: to_version_v(from_version_v(x)) == x for the value x of the version's own codec, expect_*_message_protocol gives the lifted value, write_protocol gives the bytes of the version's own write, tokio/async-std protocol readers and writers agree under whole and byte-by-byte delivery, malformed input fails identically on both paths (where the version's own codec accepts a corrupted input - undeclared flag bits - whether lift/lower keeps it is counted, not judged: outside the canonical domain). Non-trivial = encoding with a non-default decision or non-zero byte; distinct = (family, version, control shape).".into();
     c.assume("the version's own codec is judged by C01; here it is the reference for the protocol-parameterised API");
     let seed = c.seed;
     let forced = BTreeMap::new();
@@ -375,7 +386,9 @@ pub fn run(tier: Tier, replay: Option<String>) -> i32 {
             let label = format!("{}:v{}", name, v);
             let mut judge = |c: &mut Check, enc: &Encoded, tape: &[u8], forced: &BTreeMap<String, u32>| -> bool {
                 let mut done = BTreeSet::new();
-                let mal: Vec<Vec<u8>> = crate::c03::corruptions(e, enc, &mut done).into_iter().map(|x| x.frame).take(60).collect();
+                // value corruptions first (they are the ones a reader may accept), truncations after them
+                let (tr, other): (Vec<_>, Vec<_>) = crate::c03::corruptions(e, enc, &mut done).into_iter().partition(|x| x.kind.starts_with("truncate") || x.kind.starts_with("string-long"));
+                let mal: Vec<Vec<u8>> = other.into_iter().chain(tr).map(|x| x.frame).take(60).collect();
                 c.eval();
                 if enc.nontrivial() {
                     c.nontrivial(enc.shape() ^ vcommon::fnv(label.as_bytes()));
